@@ -139,7 +139,7 @@ def generate(rng, tier, seed):
               base64.b64encode(body), body.hex().encode(), body.hex().upper().encode(), b'{"k": "' + body[:8].hex().encode() + b'"}', b"\x00" * 3 + body, body + b"\x00" * 5, b"\x80" + bytes(15)]
     for ver, (bs, ksizes, ml) in VERS.items():
         for alg in "RETDAHS0":
-            for key in rng.sample(shaped, 5):
+            for key in (shaped if alg in "RE" else rng.sample(shaped, 5)):      # every shape under the asymmetric-key algorithm letters
                 c = Case(f"{ver}:key-that-parses-as-something", {"alg": alg, "key": len(key)})
                 h = make_header(rng, ver, rand_blocks(rng, rng.randrange(0, 2)), alg=alg)
                 before = header_tuple(h)
